@@ -165,6 +165,33 @@ func (e *Engine) intrinsic(fr *Frame, st *State, name string, fn *ssa.Function, 
 		old := e.heap(fr.oldState, hn, hs)
 		x := args[0].(T)
 		return T{fmt.Sprintf("(= (select %s (sbase %s)) (select %s (sbase %s)))", cur.S, x.S, old.S, x.S), sBool}
+	case "GvcDynTypeIs":
+		// dynamic type test by type name ("*pkgpath.Name"), usable where the type cannot be imported
+		x := args[0].(T)
+		nm, ok := args[1].(T)
+		if !ok || !strings.HasPrefix(nm.S, "\"") {
+			e.unsupported("GvcDynTypeIs needs a constant type name")
+		}
+		name := strings.Trim(nm.S, "\"")
+		ptr := strings.HasPrefix(name, "*")
+		name = strings.TrimPrefix(name, "*")
+		i := strings.LastIndex(name, ".")
+		if i < 0 {
+			e.unsupported("GvcDynTypeIs: type name %q must be qualified by its package path", name)
+		}
+		pk := e.P.AllPkgs[name[:i]]
+		if pk == nil {
+			e.unsupported("GvcDynTypeIs: package %q is not loaded", name[:i])
+		}
+		obj := pk.Types.Scope().Lookup(name[i+1:])
+		if obj == nil {
+			e.unsupported("GvcDynTypeIs: no type %s", name)
+		}
+		var ty types.Type = obj.Type()
+		if ptr {
+			ty = types.NewPointer(ty)
+		}
+		return e.typeTest(x, ty)
 	case "GvcBase":
 		return T{app("sbase", args[0].(T)), sRef}
 	case "GvcFresh":
